@@ -13,6 +13,16 @@ CONN_NOTE = (NOTE_COMMON + " Connection model: packets are seen through a view (
              "state digest, events and return values on every sampled history (C05's projection); each property compares its own projection.")
 
 CHECKS = {
+ "C17": dict(
+  text="Coq theorems, Closed under the global context, for EVERY state of the connection model: a frame of a kind the MQTT rule table never lets "
+       "the peer of this role send yields exactly one error event and leaves the state unchanged; a CONNECT or CONNACK frame on an established "
+       "connection is a protocol error that delivers nothing and leaves the session state equal; an undetermined server rejects every first "
+       "frame other than a CONNECT of level 4/5 without changing state, and after a good CONNECT its state and events are EQUAL to those of a "
+       "server created with that version, hence equal events for every continuation of any length (determinism). Tie: exhaustive 460-cell "
+       "receive matrix + random histories through the projection correspondence and a monitor using only the rule table and the framing model.",
+  ref="DESIGN.md §3 C17",
+  note=CONN_NOTE + " A CONNACK while Disconnected (no CONNECT sent) is accepted by the library by design of its tests; the property speaks of an established connection and so do the theorems.",
+  technique="Coq all-states proofs against an independent rule table + state-equality/determinism argument + exhaustive matrix correspondence"),
  "C11": dict(
   text="Coq theorems, Closed under the global context, for EVERY state, role, version and well-formed packet view of the connection model: "
        "(gate_sound) if the MQTT rule table (role x version x connection state; written independently in Spec/MqttRules.v) forbids the packet, "
